@@ -39,7 +39,7 @@ def _solve(job):
         s.from_string(smt2)
         # short z3 slices so that a fast cvc5 answer is not held up by a z3 timeout
         deadline = time.time() + timeout_ms / 1000.0
-        slice_ms = 1500
+        slice_ms = 1000
         while True:
             s.set('timeout', int(min(slice_ms, max(100, (deadline - time.time()) * 1000))))
             r = s.check()
@@ -53,12 +53,24 @@ def _solve(job):
                     cvc5_answer = ans
                     break
                 out['solver_output'] += ' | cvc5: %s %s' % (ans, se.strip()[:200])
-            slice_ms = min(slice_ms * 3, timeout_ms)
+            slice_ms = min(slice_ms * 2, 8000)
         out['status'] = 'unsat' if r == z3.unsat else 'sat' if r == z3.sat else 'unknown'
         if out['status'] == 'unknown' and cvc5_answer:
             out['status'], out['backend'] = cvc5_answer, 'cvc5'
         if r == z3.sat:
-            out['model'] = str(s.model())[:6000]
+            m = s.model()
+            out['model'] = str(m)[:6000]
+            vals = {}
+            for d in m.decls():
+                if d.name().startswith('arg_') and d.arity() == 0:
+                    v = m[d]
+                    if z3.is_int_value(v):
+                        vals[d.name()] = v.as_long()
+                    elif z3.is_string_value(v):
+                        vals[d.name()] = v.as_string()
+                    elif z3.is_true(v) or z3.is_false(v):
+                        vals[d.name()] = z3.is_true(v)
+            out['arg_values'] = vals
         elif r != z3.unsat:
             out['solver_output'] = 'z3: %s' % s.reason_unknown() + out['solver_output']
     except Exception as e:
@@ -105,6 +117,8 @@ def verify_modules(modnames, tier='quick', prop=None, only=None):
     for m in reg.top:
         for qual, ct in m.contracts.items():
             if only and qual not in only:
+                continue
+            if tier not in ct.tiers:
                 continue
             if ct.trusted:
                 assumptions.append('assumed contract (not verified): %s — %s' % (qual, ct.reason))
@@ -179,8 +193,21 @@ def verify_modules(modnames, tier='quick', prop=None, only=None):
             backends.add(r['backend'])
             if r['status'] == 'sat':
                 st, model = 'sat', r['model']
+                meta['arg_values'] = r.get('arg_values')
             elif r['status'] != 'unsat' and st != 'sat':
                 st, so = 'unknown', r['solver_output']
+        if st == 'sat' and meta.get('arg_values') is not None:
+            ct = reg.contracts.get(meta['function'])
+            from . import native
+            if ct is not None and native.primitive_params(ct):
+                try:
+                    rp = native.replay(ct, meta['kind'], meta['clause'], native.model_args(ct, meta['arg_values']))
+                    meta['native'] = rp
+                    if rp.get('reproduced'):
+                        meta['replay'] = dict(kind='native-call', function=ct.qual, args=rp['input'], clause_kind=meta['kind'], clause=meta['clause'],
+                                              clause_text=rp['required'], observed=rp['observed'])
+                except Exception as e:
+                    meta['native'] = dict(error=repr(e))
         meta.update(status=st, model=model, solver_output=so, backend='+'.join(sorted(backends)), time_s=t,
                     per_query=sorted((r['idx'], r['status'], round(r['time_s'], 2)) for r in rs))
         obligations.append(meta)
@@ -189,4 +216,15 @@ def verify_modules(modnames, tier='quick', prop=None, only=None):
 
 
 def replay(spec, rec):
+    """re-execute a recorded native-call counterexample on the current tree"""
+    from . import native
+    inp = rec['input']
+    if inp.get('kind') != 'native-call':
+        return []
+    prog = Program()
+    reg = Registry(spec['pyvc'], prog)
+    ct = reg.contracts[inp['function']]
+    rp = native.replay(ct, inp['clause_kind'], inp['clause'], inp['args'])
+    if rp.get('reproduced'):
+        return [dict(clause=inp['clause'], observed=rp['observed'], required=rp['required'])]
     return []
